@@ -82,7 +82,7 @@ def controls(tier):
                            "nu1 = t_end-s1[N1-1]\n\n        elif")])
     yield dict(name="control-edit-one-copy-tau", routine="get_tau", backend="pyx", n1=2, n2=2,
                mutations=[("pyx:cython_get_tau", "if t < b and b <= a: return b", "if t < b and b < a: return b")])
-    yield dict(name="control-edit-one-copy-add", routine="add_disc", backend="pyx", p1=2, p2=1,
+    yield dict(name="control-edit-one-copy-add", routine="add_const", backend="pyx", p1=2, p2=2,
                mutations=[("pyx:cython_add", "y_new[index] = y1[index1] + y2[index2]", "y_new[index] = y1[index1]")])
 
 
